@@ -1,311 +1,195 @@
 """C04 — unmatched requests get 404 or 405 with a truthful Allow header."""
-from .lib import (PLUMBING, borrow_root, callee_allow, callers, closure_args_of_call, const_int, element_sources, operand_local, option_some_edges, result_split, status_const_of_ctor, switches_on_value, try_edges)
+import re
+
+from . import lib_c04 as L
+from .lib import callee_allow, callers, const_int, result_split, status_const_of_ctor
 
 LEVEL = "other"
-TECHNIQUE = "static analysis: path-sensitive guard facts on lookup_route's MIR (405 only under the version-filtered scan, Allow entries only for items that passed it), data-flow slices, who-calls census for handlers"
-LEVEL_TEXT = ("Decides on all paths of lookup_route's MIR: the 405 arm is taken exactly on the true edge of `any(handlers at this node, find_handler_matching_version(h, request version))`, "
-              "the other edge and the unmatched-path case build for_not_found (evaluated 404); every Allow header insertion is dominated by the same predicate applied to that method's own "
-              "handler list and the request's version, and Allow is added nowhere else; lookup_route calls no handler and its `?` in http_request_handle dominates both handler invocations. "
+TECHNIQUE = ("static analysis: role-based recognition of the version-filtered scan of node.methods on lookup_route's normalised MIR (helpers inlined, combinators desugared), "
+             "path-sensitive guard facts (405 only when an emptiness test of that scan came out non-empty, Allow entries only elements of it), data-flow slices, who-calls census for handlers")
+LEVEL_TEXT = ("Decides on all paths of lookup_route's MIR (normalised view: refactoring helpers inlined, Option/Result combinators as switches): the 405 constructor is reached only when a test of "
+              "emptiness of the *served-names scan* came out non-empty — the scan being an iteration over the matched node's method table that keeps exactly the entries for which "
+              "find_handler_matching_version(that entry's handlers, the request's version) is Some, in any of the enumerated spellings (any(..); first element / peek / count of a lazily "
+              "filtered iterator; is_empty/len of the collected or pushed names; a flag set in the filtering loop) — and for_not_found (evaluated 404) is built when the same test came out empty "
+              "and for the unmatched-path case; every Allow header value is an element of that scan (per-item guard in a loop, item of a for_each over the filtered iterator, element of the "
+              "collection of served names) and Allow is added nowhere else; the per-method lookup, the scan and the Allow source read one node value; lookup_route calls no handler and its `?` "
+              "in http_request_handle dominates both handler invocations. "
               "Together with C05's exact membership table this is the whole 404/405/Allow decision, for every table and version.")
-LEVEL_NOTE = "Trusts rustc MIR, the extractor, BTreeMap::{get,values,iter}, Iterator::any and HttpError::add_header's insertion semantics."
-EXPLANATION = ("Rules over the MIR of router::lookup_route and server::http_request_handle from the current tree: TABLE (bool switch on Iterator::any -> 405 / 404 constructors with "
-               "evaluated status constants), SAME-SOURCE (closure's captured version is lookup_route's version parameter; Allow's method name and the filtered handler list are the two "
-               "components of one iterator item), DOM (edge dominance of add_header by is_some(find_handler_matching_version(..)) true edge), WHO-CALLS (ALLOW insertions, handle_request).")
-TRUSTED = ["rustc nightly MIR + const evaluation", "mirfacts extractor", "rules/engine.py", "std BTreeMap/Iterator::any semantics", "C05 (ApiEndpointVersions::matches is exact)"]
+LEVEL_NOTE = "Trusts rustc MIR, the extractor, the engine's helper inlining / combinator normalisation, BTreeMap::{get,values,iter}, Iterator::{any,filter,filter_map,map,next,count,collect,for_each} and HttpError::add_header's insertion semantics."
+EXPLANATION = ("Rules over the normalised MIR of router::lookup_route and server::http_request_handle from the current tree: TABLE (an emptiness test of the version-filtered scan of node.methods "
+               "-> 405 / 404 constructors with evaluated status constants), SAME-SOURCE (the filter closure's captured version is lookup_route's version parameter; the handler list it tests and "
+               "the name it yields are parts of one iterator item; lookup, scan and Allow source read one node), DOM (path facts: the test's outcome is established on every path to the "
+               "constructor; each Allow value is an element of the filtered scan), WHO-CALLS (ALLOW insertions, handle_request).")
+TRUSTED = ["rustc nightly MIR + const evaluation", "mirfacts extractor", "rules/engine.py (incl. helper inlining and the combinator normalisation of ctx.dsn), rules/lib.py, rules/lib_c04.py",
+           "std BTreeMap / Iterator adaptor semantics (any, filter, filter_map, map, next, peek, count, collect, for_each)", "C05 (ApiEndpointVersions::matches is exact)"]
 
 
 def _lr(ctx, R):
-    return ctx.need_fn(ctx.ds, R, r"^router::HttpRouter::<Context>::lookup_route$")
+    # the normalised view: helpers introduced by a refactoring are inlined, Option/Result combinators are switches
+    return ctx.need_fn(ctx.dsn, R, r"^router::HttpRouter::<Context>::lookup_route$")
 
 
-def _version_param(lr):
-    v = [p["l"] for p in lr.names.get("version", []) if not p["p"]]
-    return v[0] if v else 4
-
-
-def _is_version_guard(ctx, f, call_t, version_locals_ok):
-    """call_t is a find_handler_matching_version call in f: is arg1 the request's version?"""
-    sl = f.slice(call_t["args"][1])
-    return sl, (not callee_allow(sl, PLUMBING))
-
-
-def _is_request_version(lr, g, op, vparam, node=None):
-    """operand `op` in g (lookup_route itself or a closure inside it) is lookup_route's `version` parameter, unmodified."""
-    sl = g.slice(op)
-    if callee_allow(sl, PLUMBING) or any(a[0] in ("lit", "binop", "agg") for a in sl.atoms):
-        return False
-    if g is lr:
-        return sl.params() == [vparam]
-    # closure: the value must be a captured upvar that the parent filled from the version parameter
-    if node is None:
-        return False
-    idxs = set()
-    for pf in sl.param_fields():
-        if pf[0] != 1:
-            return False
-        for e in pf[1]:
-            if e.startswith("f"):
-                idxs.add(int(e[1:].split(":")[0]))
-                break
-    if not idxs:
-        return False
-    for k in idxs:
-        if k >= len(node["rv"]["ops"]):
-            return False
-        ps = lr.slice(node["rv"]["ops"][k])
-        if ps.params() != [vparam] or callee_allow(ps, PLUMBING):
-            return False
-    return True
-
-
-def _some_established_at(lr, site):
-    """Option operands known to be Some on every path to `site` (is_some()/!is_none()/if let Some, in any spelling)."""
-    out = []
-    for sbb, tgt, optop in option_some_edges(lr):
-        if tgt is not None and lr.edge_dominates(sbb, tgt, site):
-            out.append(optop)
-    states = lr.bool_states_at(site)
-    if states:
-        for bb, t in lr.live_calls(r"Option::<T>::is_some$|Option::<T>::is_none$"):
-            want = t["callee"].endswith("is_some")
-            if all(fs.get(("call", bb)) is want for fs in states):
-                out.append(t["args"][0])
-    return out
-
-
-def _version_filtered_item(lr, site, vparam):
-    """Is `site` reached only for an item (key, handlers) of node.methods whose handlers are served at the request's
-    version?  Returns (ok, iterator-next blocks of that item, detail)."""
-    detail = "no `find_handler_matching_version(handlers, version)` result is known to be Some at this point"
-    for optop in _some_established_at(lr, site):
-        gs = lr.slice(optop)
-        for c, hb, ht in gs.calls(r"^router::find_handler_matching_version$"):
-            hs0 = lr.slice(ht["args"][0], stop_at_calls=r"iter::Iterator::next$")
-            nexts = set(b for _, b, _ in hs0.calls(r"iter::Iterator::next$"))
-            hs = lr.slice(ht["args"][0])
-            ver_ok = _is_request_version(lr, lr, ht["args"][1], vparam)
-            iter_ok = hs.reads_field("methods") and bool(hs.locals() & set(lr.local_by_name("node"))) and not callee_allow(hs0, PLUMBING + [r"iter::Iterator::next$"])
-            if ver_ok and iter_ok and nexts:
-                return True, nexts, "guarded by find_handler_matching_version(handlers of this item, request version) being Some"
-            detail = "a version guard exists but: version is the request's=%s, handlers come from node.methods=%s" % (ver_ok, iter_ok)
-    return False, set(), detail
-
-
-def _served_collection(lr, vec_local, vparam):
-    """`vec_local` is a collection built empty and filled only by pushes of keys of node.methods items that passed the
-    version filter (idiom: collect the served methods, then test emptiness / iterate).  Returns (ok, detail)."""
-    defs = lr.defs().get(vec_local, [])
-    init = [n for b, k, n in defs if k == "call" and re.search(r"Vec::<T>::new$|Vec::<T>::with_capacity$|VecDeque::<T>::new$|BTreeSet::<T>::new$", n.get("callee") or "")]
-    if len(defs) != 1 or len(init) != 1:
-        return False, "the collection is not a fresh empty Vec (%d definitions)" % len(defs)
-    writes = []
-    for bb, t in lr.live_calls():
-        if not t["args"]:
-            continue
-        if len(t["args"]) >= 2 and re.search(r"::(push|push_back|insert|extend|append|extend_from_slice|push_str)$", t["callee"]) and borrow_root(lr, t["args"][0]) == vec_local:
-            writes.append((bb, t))
-    if not writes:
-        return False, "nothing is ever pushed"
-    for bb, t in writes:
-        if not re.search(r"::(push|push_back|insert)$", t["callee"]):
-            return False, "written by %s" % t["callee"]
-        ok, nexts, why = _version_filtered_item(lr, bb, vparam)
-        vs = lr.slice(t["args"][1], stop_at_calls=r"iter::Iterator::next$")
-        same = ok and set(b for _, b, _ in vs.calls(r"iter::Iterator::next$")) == nexts and not callee_allow(vs, PLUMBING + [r"iter::Iterator::next$"])
-        if not same:
-            return False, "a push is not guarded by the version filter on its own item (%s)" % why
-    return True, "every push stores the key of an item of node.methods whose handlers are served at the request's version"
-
-
-import re
+def _c405(lr):
+    return [(bb, t) for bb, t in lr.live_calls(r"^error::HttpError::for_client_error") if any(const_int(a) == 405 for a in t["args"])]
 
 
 def r1_decision(ctx):
-    R = ctx.rule("C04.R1", "the 405 error is built only when some method at the matched node is served at the request's version (any(..) over node.methods with the "
-                 "version-filtered predicate, or a non-empty collection of the methods that passed it); otherwise, and for an unmatched path, for_not_found (404) is built", floor=6)
+    R = ctx.rule("C04.R1", "the 405 error is built only when some method at the matched node is served at the request's version — decided by a test of emptiness of the "
+                 "version-filtered scan of node.methods (any(..), a first element of the lazily filtered iterator, a non-empty collection of the methods that passed the "
+                 "filter, a flag set in the filtering loop); otherwise, and for an unmatched path, for_not_found (404) is built", floor=6)
     lr = _lr(ctx, R)
-    vparam = _version_param(lr)
-    c405 = [(bb, t) for bb, t in lr.live_calls(r"^error::HttpError::for_client_error") if any(const_int(a) == 405 for a in t["args"])]
+    vparam = L.version_param(lr)
+    c405 = _c405(lr)
     ctx.check(R, "one-405-site", len(c405) == 1, "405 constructor sites in lookup_route: %d" % len(c405), lr)
     if len(c405) != 1:
         return
     bb405 = c405[0][0]
     nf = lr.live_calls(r"^error::HttpError::for_not_found$")
-    states405 = lr.bool_states_at(bb405) or []
-    idiom = None
-    detail = ""
-    deciding = None
-    # idiom A: any(values(node.methods), |h| find(h, version).is_some())
-    for abb, at in lr.live_calls(r"iter::Iterator::any$"):
-        if not states405 or not all(fs.get(("call", abb)) is True for fs in states405):
+    chosen, idiom, detail = None, None, ""
+    # role (b): an emptiness test of the served-names source (role a) came out "non-empty" on every path to the 405
+    for T in L.decision_tests(lr, vparam):
+        if not T.served(bb405):
             continue
-        cls = closure_args_of_call(lr, at)
-        okc = False
-        for h, node in cls:
-            fh = h.live_calls(r"^router::find_handler_matching_version$")
-            if len(fh) != 1:
-                continue
-            hb, ht = fh[0]
-            s_h = h.slice(ht["args"][0])
-            ret = h.slice({"l": 0, "p": []})
-            pos = (ret.has_call(r"Option::<T>::is_some$") and ("unop", "Not") not in ret.atoms) or (ret.has_call(r"Option::<T>::is_none$") and ("unop", "Not") in ret.atoms)
-            okc = s_h.params() == [2] and not callee_allow(s_h, PLUMBING) and _is_request_version(lr, h, ht["args"][1], vparam, node) and pos and ret.has_call(r"find_handler_matching_version$")
-        rs = lr.slice(at["args"][0])
-        scans = rs.reads_field("methods") and bool(rs.locals() & set(lr.local_by_name("node")))
-        if okc and scans:
-            idiom, deciding = "any", ("call", abb)
-            detail = "405 is reached only when any(values(node.methods), |h| find_handler_matching_version(h, request version).is_some()) was true"
-        else:
-            detail = "an any() guards the 405 but its predicate is not the version filter over node.methods (predicate ok=%s, scans node.methods=%s)" % (okc, scans)
-    # idiom B: a collection of the served methods is non-empty
-    if idiom is None:
-        for ebb, et in lr.live_calls(r"::is_empty$"):
-            if not states405 or not all(fs.get(("call", ebb)) is False for fs in states405):
-                continue
-            vs = lr.slice(et["args"][0])
-            cands = [l for l in vs.locals() if any(k == "call" and re.search(r"Vec::<T>::new$|Vec::<T>::with_capacity$", n.get("callee") or "") for b, k, n in lr.defs().get(l, []))]
-            for v in cands:
-                ok, why = _served_collection(lr, v, vparam)
-                detail = "405 is reached only when a collection is non-empty; %s" % why
-                if ok:
-                    idiom, deciding = "collected", ("call", ebb)
-    # idiom C: a flag set inside a loop over node.methods (`for h in values { if find(h, version).is_some() { found = true; break } }`):
+        if T.ok:
+            chosen, idiom = T, T.idiom
+            detail = "405 is reached only when this test found a served method: " + T.why
+            break
+        detail = "a test guards the 405 but it does not decide `some method of the node is served at the request's version`: " + T.why
+    # a flag set inside a loop over node.methods (`for h in values { if find(h, version).is_some() { found = true; break } }`):
     # every path to the 405 has itself established find(handlers-of-an-item, request version) as Some
-    if idiom is None and states405:
-        for bb, t in lr.live_calls(r"Option::<T>::is_some$|Option::<T>::is_none$"):
-            want = t["callee"].endswith("is_some")
-            if not all(fs.get(("call", bb)) is want for fs in states405):
-                continue
-            gs = lr.slice(t["args"][0])
-            for c, hb, ht in gs.calls(r"^router::find_handler_matching_version$"):
-                hs0 = lr.slice(ht["args"][0], stop_at_calls=r"iter::Iterator::next$")
-                hs = lr.slice(ht["args"][0])
-                if _is_request_version(lr, lr, ht["args"][1], vparam) and hs.reads_field("methods") and bool(hs.locals() & set(lr.local_by_name("node"))) \
-                        and hs0.calls(r"iter::Iterator::next$") and not callee_allow(hs0, PLUMBING + [r"iter::Iterator::next$"]):
-                    idiom, deciding = "flag", None
-                    detail = "405 is reached only on paths that found an item of node.methods with find_handler_matching_version(its handlers, request version) being Some"
+    if chosen is None:
+        okf, nexts, why = L.version_filtered_item(lr, bb405, vparam)
+        if okf:
+            idiom = "flag"
+            detail = "405 is reached only on paths that found an item of node.methods with find_handler_matching_version(its handlers, request version) being Some"
     ctx.check(R, "405-only-if-some-method-served-at-version", idiom is not None,
-              detail or "the 405 constructor is not guarded by a version-filtered scan of node.methods (facts on a path reaching it: %s)" % (states405[:1] or "unreachable"), (lr, bb405))
+              detail or "the 405 constructor is not guarded by a version-filtered scan of node.methods (facts on a path reaching it: %s)" % ((lr.bool_states_at(bb405) or ["unreachable"])[:1]), (lr, bb405))
     # the tail 404: reached when the deciding test failed
     tail = []
-    for bb, t in nf:
-        st = lr.bool_states_at(bb) or []
-        if deciding and st and all((fs.get(deciding) is (False if idiom == "any" else True)) for fs in st):
-            tail.append(bb)
-    if idiom == "flag":
+    if chosen is not None:
+        tail = [bb for bb, t in nf if chosen.none_served(bb)]
+    elif idiom == "flag":
         # the flag's false case cannot be expressed as a path fact; require the alternative: a for_not_found after the scan from which the 405 is unreachable
-        tail = [bb for bb, t in nf if bb405 not in lr.reachable(bb) and any(lr.dominates(b2, bb) for b2, _ in lr.live_calls(r"^router::find_handler_matching_version$"))]
-    ctx.check(R, "404-when-no-method-served", len(tail) >= 1 and (deciding is None or not any(bb405 in lr.reachable(b) for b in tail)),
+        tail = [bb for bb, t in nf if bb405 not in lr.reachable(bb) and any(lr.dominates(b2, bb) for b2, _ in lr.live_calls(L.FIND))]
+    ctx.check(R, "404-when-no-method-served", len(tail) >= 1 and not any(bb405 in lr.reachable(b) for b in tail),
               "for_not_found sites reached exactly when the version-filtered scan found nothing: %d" % len(tail), lr)
     s404 = status_const_of_ctor(ctx.ds, "for_not_found")
     ctx.check(R, "for_not_found-is-404", s404 == {404}, "status constants in for_not_found: %s" % sorted(s404 or []), lr)
-    # same node as the method lookup
-    # every read of a `.methods` table after the walk — the per-method lookup, the 404/405 scan and the Allow loop — goes through
-    # the SAME node value (adversary change C04-C let the success path use the wildcard's child and the failure tail its parent)
-    import json as _json
-    bases = {}
-    for bb, t in lr.live_calls(r"BTreeMap::<K, V, A>::(get|values|iter|keys|len|contains_key)$|iter::IntoIterator::into_iter$"):
-        if not t["args"]:
-            continue
-        sl0 = lr.slice(t["args"][0], stop_at_calls=r".")
-        roots = set()
-        for pj in sl0.places:
-            pl = _json.loads(pj)
-            if any(isinstance(e, dict) and e.get("n") == "methods" for e in pl["p"]):
-                roots.add(pl["l"])
-        if roots:
-            bases[(bb, t["callee"].split("::")[-1])] = roots
-
-    def canon(l, hops=6):
-        # follow plain copies / reborrows back to the originating local
-        for _ in range(hops):
-            ds = lr.defs().get(l, [])
-            if len(ds) != 1 or ds[0][1] != "assign":
-                return l
-            rv = ds[0][2]["rv"]
-            if rv["rv"] == "use" and rv["op"].get("k") in ("copy", "move") and not rv["op"]["pl"]["p"]:
-                l = rv["op"]["pl"]["l"]
-            elif rv["rv"] == "ref" and rv["pl"]["p"] == ["*"]:
-                l = rv["pl"]["l"]
-            else:
-                return l
-        return l
-    canon_sets = {k: set(canon(l) for l in v) for k, v in bases.items()}
-    common = set.intersection(*canon_sets.values()) if canon_sets else set()
-    ctx.check(R, "scan-is-over-the-matched-node", len(canon_sets) >= 3 and bool(common),
-              "reads of a `.methods` table in lookup_route (%s) all go through one node value: %s" % (sorted(k[1] for k in canon_sets), bool(common)), lr)
+    # same node as the method lookup: every read of a `.methods` table after the walk — the per-method lookup, the 404/405 scan and
+    # the Allow loop — goes through the SAME node value (adversary change C04-C let the success path use the wildcard's child and
+    # the failure tail its parent)
+    reads = L.methods_reads(lr)
+    common = set.intersection(*reads.values()) if reads else set()
+    kinds = sorted(k[1] for k in reads)
+    has_lookup = any(k in ("get", "get_key_value", "contains_key") for k in kinds)
+    has_scan = any(k in ("iter", "values", "keys", "into_iter") for k in kinds)
+    ctx.check(R, "scan-is-over-the-matched-node", has_lookup and has_scan and bool(common),
+              "reads of a `.methods` table in lookup_route (%s) include the per-method lookup and the scan, and all go through one node value: %s" % (kinds, bool(common)), lr)
     # unmatched path -> for_not_found, whatever the idiom (ok_or_else closure, match, let-else)
-    ok2 = False
     walk_nf = [bb for bb, t in nf if bb not in tail]
-    for obb, ot in lr.live_calls(r"Option::<T>::ok_or_else$|Option::<T>::ok_or$"):
-        for h, node in closure_args_of_call(lr, ot):
-            if h.slice({"l": 0, "p": []}).has_call(r"^error::HttpError::for_not_found$"):
-                ok2 = True
-    if walk_nf:
-        ok2 = True
-    ctx.check(R, "unmatched-path-is-404", ok2, "walk failure (no edge for the segment) builds for_not_found: %s" % ok2, lr)
-    errs = [(b, st2) for b, i, st2 in lr.aggregates(r"^std::result::Result$", "Err") if st2["pl"]["l"] == 0 and lr.dominates(bb405, b)]
-    okr = any(lr.slice(st2["rv"]["ops"][0]).has_call(r"for_client_error") for b, st2 in errs)
-    ctx.check(R, "405-arm-returns-the-405-error", okr, "Err(..) after the 405 constructor is that error: %s" % okr, (lr, bb405))
+    ctx.check(R, "unmatched-path-is-404", bool(walk_nf), "walk failure (no edge for the segment) builds for_not_found: %s" % bool(walk_nf), lr)
+    after = lr.reachable(bb405)
+    errs = [(b, st2) for b, i, st2 in lr.aggregates(r"^std::result::Result$", "Err") if st2["pl"]["l"] == 0 and not st2["pl"]["p"] and b in after]
+    okr = bool(errs) and all(("call", c405[0][1]["callee"], bb405) in lr.slice(st2["rv"]["ops"][0]).atoms for b, st2 in errs)
+    ctx.check(R, "405-arm-returns-the-405-error", okr, "every Err(..) returned after the 405 constructor carries that error: %s (%d sites)" % (okr, len(errs)), (lr, bb405))
+
+
+def _allow_adds(ctx):
+    adds = []
+    for f, bb, t in callers(ctx.dsn, r"^error::HttpError::add_header$"):
+        sl = f.slice(t["args"][1])
+        if sl.has_const_path(r"header::ALLOW$") or any(a[0] == "const" and "ALLOW" in a[1] for a in sl.atoms):
+            adds.append((f, bb, t))
+    return adds
 
 
 def r2_allow_truthful(ctx):
     R = ctx.rule("C04.R2", "every add_header(ALLOW, m) adds a method m of node.methods whose own handler list is served at the request's version "
-                 "(guarded per item, or m drawn from the collection of methods that passed that filter)", floor=2)
+                 "(guarded per item, or m is an element of the version-filtered iterator / of the collection of methods that passed that filter)", floor=2)
     lr = _lr(ctx, R)
-    vparam = _version_param(lr)
-    adds = []
-    for f, bb, t in callers(ctx.ds, r"^error::HttpError::add_header$"):
-        sl = f.slice(t["args"][1])
-        if sl.has_const_path(r"header::ALLOW$") or any(a[0] == "const" and "ALLOW" in a[1] for a in sl.atoms):
-            adds.append((f, bb, t))
+    vparam = L.version_param(lr)
+    adds = _allow_adds(ctx)
     if not adds:
         ctx.check(R, "allow-header-present", False, "no add_header(ALLOW, ..) site found: a 405 would carry no Allow header", lr)
         return
+    kids = ctx.dsn.children(lr)
     for f, bb, t in adds:
-        if f is not lr:
+        good, from_node, detail = False, False, ""
+        if f is lr:
+            # (1) a loop over node.methods with a per-item guard
+            ms = lr.slice(t["args"][2], stop_at_calls=L.NEXT)
+            nx = ms.calls(L.NEXT)
+            nexts = set(b for _, b, _ in nx)
+            clean = not callee_allow(ms, L.VALUE_PLUMBING + [L.NEXT]) and not any(a[0] in ("lit", "const") for a in ms.atoms)
+            ok, gnexts, why = L.version_filtered_item(lr, bb, vparam)
+            good = ok and gnexts == nexts and clean
+            detail = why + ("; the Allow value is the key of that same item" if good else "")
+            from_node = good
+            # (2) an element of the served-names source / of the collection of served names
+            if not good and nx:
+                kinds = [L.element_origin(lr, nt["args"][0], vparam) for _, _, nt in nx]
+                from_node = all(k != "other" for k, rec in kinds)
+                if all(k == "served" for k, rec in kinds):
+                    good = clean and all(rec["ok"] for k, rec in kinds)
+                    detail = "the Allow value is an element of: " + "; ".join(rec["why"] for k, rec in kinds)
+                    if not clean:
+                        detail = "the Allow value is computed from, not taken from, the served method names"
+        elif f in kids:
+            # the body of a `for_each` over the served names
+            sites = L.closure_sites(lr, f)
+            item = L._from_item_only(f, t["args"][2])
+            recs = []
+            for sbb, st, agg in sites:
+                if not re.search(r"iter::Iterator::(for_each|try_for_each)$", st["callee"]):
+                    recs.append(("other", {"ok": False, "why": "the closure adding Allow is passed to %s" % st["callee"]}))
+                else:
+                    recs.append(L.element_origin(lr, st["args"][0], vparam))
+            from_node = bool(recs) and all(k != "other" for k, rec in recs)
+            if recs and all(k == "served" for k, rec in recs):
+                good = item and all(rec["ok"] for k, rec in recs)
+                detail = "the Allow value is the item of a for_each over: " + "; ".join(rec["why"] for k, rec in recs)
+                if not item:
+                    detail = "the Allow value is not the for_each item itself"
+            else:
+                detail = "the closure adding Allow is not the body of a for_each over the methods served at the request's version (it runs over: %s)" % \
+                         ("; ".join(rec["why"] if k == "other" else ("the unfiltered method table" if k == "table" else "the served methods") for k, rec in recs) or "nothing")
+        else:
             ctx.check(R, "allow-site:%s" % f.id, False, "Allow header added outside lookup_route", (f, bb))
             continue
-        ms = lr.slice(t["args"][2], stop_at_calls=r"iter::Iterator::next$")
-        nexts = set(b for _, b, _ in ms.calls(r"iter::Iterator::next$"))
-        ok, gnexts, why = _version_filtered_item(lr, bb, vparam)
-        good = ok and gnexts == nexts and not callee_allow(ms, PLUMBING + [r"iter::Iterator::next$"])
-        detail = why + ("; the Allow value is the key of that same item" if good else "")
-        if not good:
-            # idiom B: the value is an element of the served collection
-            for g, it_op, how in element_sources(ctx.ds, lr, t["args"][2]):
-                its = lr.slice(it_op)
-                for v in its.locals():
-                    if any(k == "call" and re.search(r"Vec::<T>::new$|Vec::<T>::with_capacity$", n.get("callee") or "") for b, k, n in lr.defs().get(v, [])):
-                        okc, whyc = _served_collection(lr, v, vparam)
-                        if okc and not callee_allow(ms, PLUMBING + [r"iter::Iterator::next$"]):
-                            good = True
-                            detail = "the Allow value is an element of the collection of served methods (%s)" % whyc
-                        else:
-                            detail = whyc
-        ctx.check(R, "allow-entry-is-a-method-served-at-the-version", good, detail, (lr, bb))
-        node_locals = set(lr.local_by_name("node"))
-        ctx.check(R, "allow-derives-from-matched-node", good or bool(lr.slice(t["args"][2]).locals() & node_locals), "Allow values come from the `node` reached by the walk", (lr, bb))
+        ctx.check(R, "allow-entry-is-a-method-served-at-the-version", good, detail or "the Allow value is not drawn from the methods served at the request's version", (f, bb))
+        ctx.check(R, "allow-derives-from-matched-node", good or from_node, "Allow values come from the method table of the `node` reached by the walk", (f, bb))
 
 
 def r3_allow_only_on_405(ctx):
     R = ctx.rule("C04.R3", "an Allow header is added in the 405 arm of lookup_route and nowhere else in the crate", floor=1)
     lr = _lr(ctx, R)
-    c405 = [(bb, t) for bb, t in lr.live_calls(r"^error::HttpError::for_client_error") if any(const_int(a) == 405 for a in t["args"])]
+    c405 = _c405(lr)
+    kids = ctx.dsn.children(lr)
     n = 0
-    adds = [(bb, t) for bb, t in lr.live_calls(r"^error::HttpError::add_header$")]
-    for f in ctx.ds.F.values():
+    for f in ctx.dsn.F.values():
         if f.id.startswith(("test_util", "logging")):
             continue
         for bb in f.const_uses(r"header::ALLOW$"):
             n += 1
-            ok = f is lr and len(c405) == 1 and lr.dominates(c405[0][0], bb)
-            # the constant flows into an add_header on the 405 error
-            on_err = False
+            ok = on_err = False
             if f is lr:
-                for abb, at in adds:
+                ok = len(c405) == 1 and lr.dominates(c405[0][0], bb)
+                # the constant flows into an add_header on the 405 error
+                for abb, at in lr.live_calls(r"^error::HttpError::add_header$"):
                     if lr.slice(at["args"][1]).has_const_path(r"header::ALLOW$") and lr.slice(at["args"][0]).has_call(r"for_client_error"):
                         on_err = True
+            elif f in kids:
+                # a closure of lookup_route (the body of a for_each): every place that runs it is in the 405 arm, and the
+                # error it adds to is the captured 405 error
+                sites = L.closure_sites(lr, f)
+                ok = len(c405) == 1 and bool(sites) and all(lr.dominates(c405[0][0], sbb) for sbb, st, agg in sites)
+                for abb, at in f.live_calls(r"^error::HttpError::add_header$"):
+                    if f.slice(at["args"][1]).has_const_path(r"header::ALLOW$"):
+                        on_err = bool(sites)
+                        for sbb, st, agg in sites:
+                            ups = L.upvar_operands(f, agg, at["args"][0])
+                            if not ups or not all(lr.slice(u).has_call(r"for_client_error") for u in ups):
+                                on_err = False
             ctx.check(R, "allow-use:%s" % f.id, ok and on_err,
                       "use of header::ALLOW %s dominated by the 405 constructor; it is added to the 405 error=%s" % ("is" if ok else "is NOT", on_err), (f, bb))
     if n == 0:
@@ -379,6 +263,9 @@ def r5_allow_reaches_the_wire(ctx):
 
 RULES = [("C04.R5", r5_allow_reaches_the_wire), ("C04.R1", r1_decision), ("C04.R2", r2_allow_truthful), ("C04.R3", r3_allow_only_on_405), ("C04.R4", r4_no_handler)]
 
+_ANY = "        if node.methods.values().any(|handlers| {\n            find_handler_matching_version(handlers, version).is_some()\n        }) {"
+_LOOP = "            for (allowed, handlers) in node.methods.iter() {\n                // Only list methods that are actually served at this version.\n                if find_handler_matching_version(handlers, version).is_some() {\n                    err.add_header(http::header::ALLOW, allowed)\n                        .expect(\"method should be a valid allow header\");\n                }\n            }"
+
 SELFTEST = [
     {"name": "prefix-f2", "kind": "mutant", "revert": "55289db", "expect": ["C04.R2"], "why": "Allow lists methods not served at the request's version (pre-fix code)"},
     {"name": "any-ignores-version", "kind": "mutant", "edits": [("dropshot/src/router.rs", "        if node.methods.values().any(|handlers| {\n            find_handler_matching_version(handlers, version).is_some()\n        }) {",
@@ -392,6 +279,27 @@ SELFTEST = [
                                                      "        let other_method_served = node.methods.values().any(|handlers| {\n            find_handler_matching_version(handlers, version).is_some()\n        });\n        if other_method_served {")], "why": "let-bound predicate"},
     {"name": "guard-as-match", "kind": "benign", "edits": [("dropshot/src/router.rs", "                if find_handler_matching_version(handlers, version).is_some() {\n                    err.add_header(http::header::ALLOW, allowed)\n                        .expect(\"method should be a valid allow header\");\n                }",
                                                          "                if find_handler_matching_version(handlers, version).is_none() {\n                    continue;\n                }\n                err.add_header(http::header::ALLOW, allowed)\n                    .expect(\"method should be a valid allow header\");")], "why": "negated guard with continue"},
+    {"name": "lazy-filter-first-element", "kind": "benign", "edits": [
+        ("dropshot/src/router.rs", _ANY, "        if node.methods.iter().filter_map(|(name, handlers)| find_handler_matching_version(handlers, version).map(|_| name)).next().is_some() {"),
+        ("dropshot/src/router.rs", _LOOP, "            node.methods.iter().filter_map(|(name, handlers)| find_handler_matching_version(handlers, version).map(|_| name)).for_each(|allowed| {\n"
+                                          "                err.add_header(http::header::ALLOW, allowed).expect(\"method should be a valid allow header\");\n            });")],
+     "why": "the served names as a lazily filtered iterator: first element decides 404/405, a re-created iterator feeds a for_each adding Allow"},
+    {"name": "collect-then-test", "kind": "benign", "edits": [
+        ("dropshot/src/router.rs", _ANY, "        let served: Vec<&String> = node.methods.iter().filter(|(_, handlers)| find_handler_matching_version(handlers.as_slice(), version).is_some()).map(|(name, _)| name).collect();\n"
+                                         "        if served.len() > 0 {"),
+        ("dropshot/src/router.rs", _LOOP, "            for allowed in served {\n                err.add_header(http::header::ALLOW, allowed).expect(\"method should be a valid allow header\");\n            }")],
+     "why": "filter + map collected into a Vec, len() > 0 decides, the Vec feeds the Allow loop"},
+    {"name": "question-mark-filter", "kind": "benign", "edits": [
+        ("dropshot/src/router.rs", _ANY, "        if node.methods.iter().filter_map(|(name, handlers)| { find_handler_matching_version(handlers, version)?; Some(name) }).count() != 0 {")],
+     "why": "`?` inside the filter_map callback, count() != 0 decides"},
+    {"name": "lazy-filter-allow-ignores-version", "kind": "mutant", "expect": ["C04.R2"], "edits": [
+        ("dropshot/src/router.rs", _ANY, "        if node.methods.iter().filter_map(|(name, handlers)| find_handler_matching_version(handlers, version).map(|_| name)).next().is_some() {"),
+        ("dropshot/src/router.rs", _LOOP, "            node.methods.iter().filter_map(|(name, handlers)| find_handler_matching_version(handlers, None).map(|_| name)).for_each(|allowed| {\n"
+                                          "                err.add_header(http::header::ALLOW, allowed).expect(\"method should be a valid allow header\");\n            });")],
+     "why": "the iterator feeding Allow filters by `None` instead of the request's version"},
+    {"name": "lazy-filter-inverted-decision", "kind": "mutant", "expect": ["C04.R1"], "edits": [
+        ("dropshot/src/router.rs", _ANY, "        if node.methods.iter().filter_map(|(name, handlers)| find_handler_matching_version(handlers, version).map(|_| name)).next().is_none() {")],
+     "why": "405 when nothing is served at the version, 404 when something is"},
 ]
 
 LEVEL_TEXT += " Also (R5): add_header appends and HttpError::into_response moves the error's header map into the response as a whole, so every collected Allow value reaches the wire."
